@@ -8,7 +8,7 @@ HEADER = ec.ENG_HEADER.replace("Check.Eng.", "Check.Eng Model.Index Check.C03.")
 CASE_TYPE = "case03"
 CHECK_FN = "check_cases"
 MISMATCH_IS_VIOLATION = False
-RULE = ("two kinds of case. index: an engine case (generated database / query / options, NLP off); the real inverted index is dumped (postings with per-field "
+RULE = ("three kinds of case. bigindex (2 per 300 cases): a database of 1025-1039 tiny entries, the query naming one of the last entries - index dump and one scan-equals-index search only. index: an engine case (generated database / query / options, NLP off); the real inverted index is dumped (postings with per-field "
         "term frequencies, document frequencies, field lengths, average lengths bit for bit) and compared with Model/Index.v's, and the real answer at a limit "
         "above the database size must equal the exhaustive-scan answer (Model/Engine.v) bit for bit. history: 2-6 steps of LoadDatabaseWithPersonal / "
         "CachedDatabase.UpdateDatabase / direct growth of Commands, each followed by a search (NLP on in 2/3 of the steps) whose answer must equal the answer of a "
@@ -28,8 +28,8 @@ def cix(d):
 
 
 def coq_case(c):
-    if c["kind"] == "index":
-        return "KIndex %s %s" % (ec.cecase(c), cix(c["index"]))
+    if c["kind"] in ("index", "bigindex"):
+        return "%s %s %s" % ("KIndex" if c["kind"] == "index" else "KBig", ec.cecase(c), cix(c["index"]))
     steps = ["(%s, %s, %s, %s)" % (ec.cres(s.get("got")), ec.cres(s.get("fresh")), ec.cbl(s.get("after")), ec.cbl(s.get("expect"))) for s in c.get("steps") or []]
     return "KHistory %s" % core.clist(steps)
 
@@ -45,8 +45,8 @@ def identity(c):
 
 
 def sample(c):
-    if c["kind"] == "index":
-        d = ec.eng_sample(c); d["kind"] = "index"; d["index_terms"] = len(c["index"].get("terms") or []); return d
+    if c["kind"] in ("index", "bigindex"):
+        d = ec.eng_sample(c); d["kind"] = c["kind"]; d["index_terms"] = len(c["index"].get("terms") or []); return d
     return {"kind": "history", "steps": [{"op": s["op"], "query": ec.b2s(s["q"]), "nlp": s["opts"]["nlp"], "commands_after": len(s.get("after") or []),
                                            "answer": (s.get("got") or [])[:3], "fresh_answer": (s.get("fresh") or [])[:3]} for s in c.get("steps") or []]}
 
